@@ -206,6 +206,22 @@ pub fn family_program(rng: &mut Rng) -> Program {
         roots.push(Src::App(outer, vec![Src::Prim("u8")]));
         roots.push(Src::App(outer, vec![Src::Prim("u16")]));
     }
+    // a second, independent clashing path in the same registry (numbering is per path)
+    if rng.chance(1, 3) {
+        let d1 = defs.len();
+        for (k, prim) in ["u8", "u64", "bool"].iter().enumerate().take(rng.range(2, 3)) {
+            let _ = k;
+            defs.push(Def {
+                path: vec!["b".into(), "Digest".into()],
+                params: vec![],
+                body: Body::Struct(vec![FieldDef { name: Some("d".into()), ty: Src::Prim(prim), compact_attr: false, docs: vec![], type_name: !no_tn }]),
+                docs: vec![],
+            });
+        }
+        for d in d1..defs.len() {
+            roots.push(Src::App(d, vec![]));
+        }
+    }
     rng.shuffle(&mut roots);
     Program { defs, roots }
 }
